@@ -22,6 +22,7 @@ def run(ctx):
         # ... and every fifth + 2 schedule walks through the API function by function (all threads on the same function, special macro values over-represented)
         nfam = max(1, nseeds // 5)
         args = (["c17", 8 + (i % 9), calls * 2, 40 + i % 7, "errors"] if i % 5 == 4 else
+                ["c17", 12 + (i % 5), calls, 8, "files"] if i % 5 == 1 else
                 ["c17", 8 + (i % 5), 250 if ctx.quick else 600, 48, "family", i // 5, nfam] if i % 5 == 2 else ["c17", 8 + (i % 9), calls, 300 + 37 * (i % 11)])
         r = ctx.run_harness(exe, args, out, env={"VERIF_SEED": str(ctx.seed * 10000 + i), "TSAN_OPTIONS": "halt_on_error=0 log_path=%s report_signal_unsafe=0" % log}, timeout=3000)
         return out, r.returncode
@@ -58,7 +59,7 @@ def run(ctx):
     ctx.evaluations = ncalls
     return verdict(ctx, "model_checking", {
         "distinct_nontrivial": nev,
-        "rule": "model: XrlConc explored exhaustively (2 threads x 2 calls and 3 threads x 1 call%s over the 6 thread-safe call kinds, every interleaving of their shared-state steps): NoConflict, SerialResults, LocaleRestored; the configuration with AddBuiltin must violate NoConflict and the non-C-locale configuration must violate SerialResults (both checked: vacuity guards). Schedules: %d seeded runs of 8-16 threads x %d calls over seeded query pools (numeric entry points incl. failing calls, compound functions, parser, catalogue and crystal lookups), each thread with its own error slots; every fifth run consists of failing calls only (error code and message text are part of the compared result), every fifth run walks through the API one function at a time (all threads on the same function); the serial reference of every run is computed in a forked child so that the threads meet a library that has not been called yet (lazy initialisation races), on ThreadSanitizer objects; every (thread, query) compared bit for bit with the serial answer by TLC; any ThreadSanitizer report is a violation; positive control (one thread inserting into the built-in collection) must be reported. distinct_nontrivial = (run, thread, query) triples compared; evaluations = concurrent calls." % (", 3 threads x 2 calls" if not ctx.quick else "", nseeds, calls),
+        "rule": "model: XrlConc explored exhaustively (2 threads x 2 calls and 3 threads x 1 call%s over the 6 thread-safe call kinds, every interleaving of their shared-state steps): NoConflict, SerialResults, LocaleRestored; the configuration with AddBuiltin must violate NoConflict and the non-C-locale configuration must violate SerialResults (both checked: vacuity guards). Schedules: %d seeded runs of 8-16 threads x %d calls over seeded query pools (numeric entry points incl. failing calls, compound functions, parser, catalogue and crystal lookups), each thread with its own error slots; every fifth run consists of failing calls only (error code and message text are part of the compared result), every fifth run reads one crystal file into per-thread arrays, every fifth run walks through the API one function at a time (all threads on the same function); the serial reference of every run is computed in a forked child so that the threads meet a library that has not been called yet (lazy initialisation races), on ThreadSanitizer objects; every (thread, query) compared bit for bit with the serial answer by TLC; any ThreadSanitizer report is a violation; positive control (one thread inserting into the built-in collection) must be reported. distinct_nontrivial = (run, thread, query) triples compared; evaluations = concurrent calls." % (", 3 threads x 2 calls" if not ctx.quick else "", nseeds, calls),
         "tsan_reports": len(reports), "concurrent_calls": ncalls,
     }, ["data races are observed by ThreadSanitizer on the schedules that happened; glibc itself is not instrumented (setlocale vs strtod is covered by the model only)",
         "the numeric locale of the process is C or C.utf8: the lost-restore interleaving of the parser in a comma-decimal locale is shown at model level (MC_C17_locale) and cannot be run here"], extra_violations=extra)
